@@ -41,7 +41,7 @@ def run(tier, corrupt=0):
     c.setv("days_skipped_undetermined", tot["undet"])
     # first-interval clause: the first interval of a stream carries the comments of the period containing the start
     kept = list(c.mismatches)
-    rl = iter_common.record_parallel(c, "range", 400 if tier == "quick" else 8000, 8, extra=["--work-budget", 3_000_000 if tier == "quick" else 100_000_000])
+    rl = iter_common.record_parallel(c, "range", 400 if tier == "quick" else 8000, 8, extra=["--comments", 1, "--work-budget", 3_000_000 if tier == "quick" else 100_000_000])
     verdicts, nint, nruns, nontrivial = iter_common.validate(c, rl, 8, "first interval comments")
     c.mismatches = kept + [m for m in c.mismatches[len(kept):] if m["case"].get("verdict") == "comment"]
     c.add("traces_validated_against_impl", len(rl))
